@@ -13,7 +13,7 @@ class N1(MetadataSchema):
     q: O[bool]
 
 class N2(N1):
-    pass
+    r: O[int]
 
 class M(MetadataSchema):
     a: O[int]
@@ -30,7 +30,7 @@ class PN1(PlainBase):
     q: O[float]
 
 class PN2(PN1):
-    pass
+    r: O[str]
 
 class PM(PlainBase):
     a: O[str]
@@ -45,11 +45,11 @@ class PlainPartials(PartialFactory):
 
 def families():
     fam1 = dict(name="MetadataSchema", M=M, N={1: N1, 2: N2}, P=M.Partial, NP={1: N1.Partial, 2: N2.Partial},
-                atom={"a": {"0": 0, "7": 7}, "b": {"F": False, "T": True}, "p": {"0": 0, "7": 7}, "q": {"F": False}},
+                atom={"a": {"0": 0, "7": 7}, "b": {"F": False, "T": True}, "p": {"0": 0, "7": 7}, "q": {"F": False}, "r": {"0": 0, "7": 7}},
                 elem={"0": 0, "7": 7}, yaml=True)
     fam2 = dict(name="plain pydantic + PartialFactory", M=PM, N={1: PN1, 2: PN2}, P=PlainPartials.get_partial(PM),
                 NP={1: PlainPartials.get_partial(PN1), 2: PlainPartials.get_partial(PN2)},
-                atom={"a": {"0": "", "7": "x"}, "b": {"F": 0.0, "T": 1.5}, "p": {"0": "", "7": "x"}, "q": {"F": 0.0}},
+                atom={"a": {"0": "", "7": "x"}, "b": {"F": 0.0, "T": 1.5}, "p": {"0": "", "7": "x"}, "q": {"F": 0.0}, "r": {"0": "", "7": "x"}},
                 elem={"0": "", "7": "x"}, yaml=False)
     return [fam1, fam2]
 
